@@ -11,7 +11,7 @@ RULE = ("enums with N = 0..8 enabled variants (field-less, with payloads, generi
         "255 / 256 / 257 enabled variants driven to exhaustion from either end, each built "
         "in a dev AND a release crate. Histories: (a) state cover: every (front, back) cursor pair reachable in the model "
         "(including the frozen ones) is reached by a shortest prefix, then every operation of the alphabet {next, next_back, "
-        "nth k, nth_back k, len, size_hint, clone-then-diverge}, k in {0..N+1, usize::MAX-1, usize::MAX}, then a probe suffix "
+        "nth k, nth_back k, len, size_hint, clone-then-diverge, and count / last / collect / fold / rev().collect / rfold on a clone}, k in {0..N+1, usize::MAX-1, usize::MAX}, then a probe suffix "
         "(len, drain from both ends, len); (b) all sequences up to length 3 (quick) / 4 (thorough) over a 10-letter alphabet; (c) "
         "seeded random sequences of length <= 40 with clone forks; (d) skip / step_by / rev / skip+rev / cycle+take / count / last. "
         "Every call runs under catch_unwind; every returned item, len, size_hint and panic is compared. Send + Sync is a "
@@ -89,7 +89,8 @@ def build_corpus(tier, rng):
                  ["0:t%d" % (n - 2), "0:b", "0:n"], ["0:n", "0:n", "0:u%d" % (n - 4), "0:b", "0:b"], ["0:t%d" % (n // 2), "0:u%d" % (n - n // 2 - 2), "0:n"],
                  ["0:t127", "0:t127", "0:n"], ["0:t%d" % (n - 3), "c0", "1:n", "1:n", "1:n", "0:b", "0:b", "0:b"]]
         for d in drive:
-            for tail in (probe(), ["0:l", "0:n", "0:l", "0:b", "0:l", "0:t0", "0:u0", "0:h"], ["c0", "1:l", "1:n", "1:b", "0:l", "1:l"]):
+            for tail in (probe(), ["0:l", "0:n", "0:l", "0:b", "0:l", "0:t0", "0:u0", "0:h"], ["c0", "1:l", "1:n", "1:b", "0:l", "1:l"],
+                         ["0:K", "0:Z", "0:l", "0:D", "0:E", "0:n"]):
                 c.add_q(k, "iterops", d + tail, note="large")
         bigks = sorted({0, 1, 127, 128, 254, 255, 256, 257, n - 1, n, n + 1, MAXU})
         for _ in range(200 if thorough else 40):
@@ -102,7 +103,8 @@ def build_corpus(tier, rng):
         k = c.add_def(it, family=fam, derives=["EnumIter"], n=n)
         c.add_q(k, "struct", ["EnumIter"], note="structure")
         ks = sorted(set(list(range(0, n + 2)) + [MAXU - 1, MAXU, 2 ** 63, 2 ** 32]))
-        alphabet = ["n", "b", "l", "h"] + ["t%d" % x for x in ks] + ["u%d" % x for x in ks]
+        # K Z G D R E: count / last / collect / fold / rev-collect / rfold on a CLONE of the slot (methods a generator could override)
+        alphabet = ["n", "b", "l", "h", "K", "Z", "G", "D", "R", "E"] + ["t%d" % x for x in ks] + ["u%d" % x for x in ks]
         # (a) state cover
         for i in range(0, n + 2):
             for b in range(0, n + 2):
@@ -120,16 +122,20 @@ def build_corpus(tier, rng):
                     c.add_q(k, "iterops", ["0:" + s for s in seq] + ["0:l", "0:n", "0:b", "0:l"], note="short")
         # (c) random with clones
         for _ in range(600 if thorough else 40):
-            nslots = 1
+            live = [0]          # slots the history may use; the clone a K/Z/G/D/R/E op consumes takes a slot number too, but is never used again
+            total = 1
             seq = []
             for _ in range(rng.randint(1, 40)):
                 r = rng.random()
-                if r < 0.1 and nslots < 4:
-                    seq.append("c%d" % rng.randrange(nslots))
-                    nslots += 1
+                if r < 0.1 and len(live) < 4:
+                    seq.append("c%d" % rng.choice(live))
+                    live.append(total)
+                    total += 1
                 else:
                     op = rng.choice(alphabet) if rng.random() < 0.5 else rng.choice(["n", "b", "l", "t0", "t1", "u0", "u1"])
-                    seq.append("%d:%s" % (rng.randrange(nslots), op))
+                    seq.append("%d:%s" % (rng.choice(live), op))
+                    if op[0] in "KZGDRE":
+                        total += 1
             c.add_q(k, "iterops", seq, note="random")
         # (d) adapters
         for x in sorted(set(list(range(0, n + 3)) + [MAXU, MAXU - 1])):
